@@ -12,6 +12,10 @@
 #! run i 22+3 ; => nl 2 6
 #! run j 5+6 ; => nvv 11 22
 #! run k 40 ; => tsv 2 40 4 | end 40
+#! pin scanBytes=false
+#! pin caseInsensitive=false
+#! pin nonBacktracking=false
+#! pin tokenColumn=false
 language @NAME@(go);
 
 package = "scratch/@NAME@"
